@@ -83,7 +83,9 @@ theorem v2c_C15_guard_dropped_counterexample :
     (stepGW { Guards.source with subAfterNoRow := fun _ => false } d (.createSubAfter 1 [66] 7)).2 = .ub .empty_optional ∧
     (stepGW { Guards.source with setParentNoRow := fun _ => false } d (.setParent 7 none)).2 = .ub .empty_optional ∧
     (stepGW { Guards.source with addBackExisting := fun _ => true } d (.addTrack 1 1)).2 = .ub .empty_optional ∧
-    (stepGW { Guards.source with setParentGiven := fun _ => true } d (.setParent 1 none)).2 = .ub .empty_optional := by
+    (stepGW { Guards.source with setParentGiven := fun _ => true } d (.setParent 1 none)).2 = .ub .empty_optional ∧
+    (stepGW { Guards.source with crateRemoveTrackFound := fun _ => true } d (.removeTrackFrom 1 1)).2 = .ub .empty_optional ∧
+    (stepGW { Guards.source with dbRemoveTrackFound := fun _ => true } d (.removeTrack 1)).2 = .ub .empty_optional := by
   decide +kernel
 
 /-- The chain walk of `sort_ids` / `get_for_list`: on a table that represents lists the tail exists and
